@@ -329,7 +329,8 @@ pub fn gen_project(rng: &mut Rng, cfg: &DocCfg) -> Vec<(String, Doc)> {
     let mut headers: Vec<(Vec<String>, String, ItemKind)> = Vec::new();
     for _ in 0..nfiles {
         let pkg: Vec<String> = rng.pick(PACKAGES).iter().map(|s| (*s).to_owned()).collect();
-        let name = (*rng.pick(ITEM_NAMES)).to_owned();
+        // sometimes a project item carries the simple name of an Android built-in (in its own package)
+        let name = if rng.chance(1, 8) { (*rng.pick(BUILTIN_SIMPLE)).to_owned() } else { (*rng.pick(ITEM_NAMES)).to_owned() };
         headers.push((pkg, name, gen_kind(rng)));
     }
     let keys: Vec<String> = headers.iter().map(|(p, n, _)| format!("{}.{}", p.join("."), n)).collect();
